@@ -9,6 +9,7 @@
 import Gedcom.Lemmas.Listing
 import Gedcom.Lemmas.Legal
 import Gedcom.Props.C01
+import Gedcom.Lemmas.Regex
 namespace Gedcom.C02
 open Gedcom Gedcom.Dec
 
@@ -164,5 +165,56 @@ theorem normal_form (o : Opts) (hm : o.allowMultiLine = false) (s : Str) (d : Do
   rw [hd] at h'
   simp only [Outcome.ok.injEq] at h'
   rw [h']
+
+/-! ## The line grammar is the regular expression in the source
+
+`Generated.lineRegex` is translated on every run from the literal given to `regexp.MustCompile`
+in decoder.go (regexp/syntax parse tree → `Regex.Re`); `Regex.find` is the backtracking
+(leftmost-first) semantics of that fragment.  The model's `parseLine`, which every theorem above
+is about, is a deterministic parser with no backtracking; the next theorems show it is the
+same function. -/
+
+/-- **Obligation on the regenerated pattern**: it is anchored at the start of the text, it is
+    term for term the expression the stage lemmas are proved for, and every class in it is
+    ASCII-only or contains all of U+0080…U+10FFFF (so consuming bytes and consuming runes are
+    the same thing). -/
+theorem line_pattern_is_expected :
+    Generated.lineRegexAnchored = true ∧ Generated.lineRegex = Regex.expected ∧
+    Generated.lineRegex.byteSafe = true := by decide
+
+/-- **Obligation on the regenerated go/ast facts**: `parseLine` starts from
+    `lineRegexp.FindStringSubmatch(line)`, answers "no match" with an error, and reads the
+    indent from group 1, the pointer from group 2 without its first byte and its last two, only
+    when the group is not empty, the tag from group 3 and the value from group 4. -/
+theorem parseLine_uses_submatches :
+    Generated.parseLineUsesFind = true ∧ Generated.parseLineErrorOnNoMatch = true ∧
+    Generated.indentGroup = 1 ∧ Generated.pointerGroup = 2 ∧ Generated.pointerLo = 1 ∧
+    Generated.pointerHi = 2 ∧ Generated.pointerGuarded = true ∧ Generated.tagGroup = 3 ∧
+    Generated.valueGroup = 4 := by decide
+
+/-- **The line grammar.** For every line without a line feed, matching the source's regular
+    expression (backtracking semantics, all submatches) and extracting the fields the way
+    `parseLine` does gives exactly the model's `parseLine`: same lines rejected, same level,
+    pointer, tag and value on the others.  No bound on the length of the line. -/
+theorem parseLine_is_the_source_regexp (l : Str) (h : LF ∉ l) :
+    (Regex.find Generated.lineRegex l).map Regex.fields = parseLine l := by
+  rw [line_pattern_is_expected.2.1, Regex.find_expected l h, Regex.fields_lineRes]
+
+/-- the hypothesis of `parseLine_is_the_source_regexp` holds for every line the decoder's line
+    reader produces, whatever the input bytes -/
+theorem decoder_lines_have_no_break (s : Str) : ∀ l ∈ splitLines s, LF ∉ l ∧ CR ∉ l := by
+  intro l hl
+  have := splitLines_nobreak s l hl
+  exact ⟨fun hm => (this LF hm).1 rfl, fun hm => (this CR hm).2 rfl⟩
+
+/-- non-vacuity: `0 @I1@ NAME  a b` through the regular expression -/
+example :
+    (Regex.find Generated.lineRegex [48, 32, 64, 73, 49, 64, 32, 78, 65, 77, 69, 32, 32, 97, 32, 98]).map
+        Regex.fields
+      = some ⟨0, [73, 49], [78, 65, 77, 69], [32, 97, 32, 98]⟩ := by decide
+
+/-- non-vacuity: `1 @@ X` is rejected (empty pointer; `\w+` cannot start at `@`) -/
+example : (Regex.find Generated.lineRegex [49, 32, 64, 64, 32, 88]).map Regex.fields = none := by
+  decide
 
 end Gedcom.C02
